@@ -741,6 +741,14 @@ def rule_csv_file_modes(ctx: Ctx) -> RuleResult:
                     "file.write falls back to %r when it is given no mode" % fallback if eff == fallback else "as passed",
                     "writing str to a binary file raises TypeError, so dump_to_file with its default arguments writes nothing" if not encoded else
                     "writing bytes to a text file raises TypeError"), trace_of(p)))
+            # the file is created or truncated ('w'), not appended to: the file holds exactly the rows of this dump
+            r.ob(set(eff) <= set("wbt") and "w" in eff, lambda eff=eff, p=p: Finding(
+                "CS-5", "%s::dump_to_file{truncate}" % CSV, md.where(fd),
+                "the file is opened in mode %r: a file that already exists keeps its old content (append / update), so it does not hold exactly "
+                "the dumped rows" % eff, trace_of(p)))
+            r.ob(_is_param(kw.get("file"), "filename"), lambda kw=kw: Finding(
+                "CS-5", "%s::dump_to_file{target}" % CSV, md.where(fd), "file.write must receive the filename of dump_to_file; it receives file=%s" % (
+                    show(kw["file"]) if kw.get("file") else None)))
         if not got:
             raise AnalysisError("csv.dump_to_file: no pipeline found for encoding %s" % enc)
     # the reader: the text that reaches line.unframe is decoded by one decoder for the whole file -- the file object opened in text
@@ -774,6 +782,16 @@ def rule_csv_file_modes(ctx: Ctx) -> RuleResult:
                         per_chunk = True
         incremental = "rxsci.data.codec.decode" in ids
         binary = "b" in eff
+        # the decoder is given the encoding of load_from_file (the one the writer encoded with), and the file its name
+        encarg = kw.get("encoding") if not binary else next((_kwargs_of(x).get("encoding") or ([a for a in x[2] if a[0] != "kw"] or [None])[0]
+                                                             for x in stages if _stage_id(x) == "rxsci.data.codec.decode"), None)
+        r.ob(_is_param(encarg, "encoding"), lambda encarg=encarg, p=p: Finding(
+            "CS-5", "%s::load_from_file{encoding}" % CSV, ml.where(fl),
+            "the reader must decode with the encoding given to load_from_file; the decoder receives %s (the platform default when nothing is given), so text "
+            "written by dump_to_file(encoding=...) is read back with another encoding" % (show(encarg) if encarg is not None else "nothing"), trace_of(p)))
+        pos0 = [a for a in src[2] if a[0] != "kw"][:1]
+        r.ob(_is_param(kw.get("file"), "filename") or (pos0 and _is_param(pos0[0], "filename")), lambda p=p: Finding(
+            "CS-5", "%s::load_from_file{source}" % CSV, ml.where(fl), "file.read must receive the filename of load_from_file", trace_of(p)))
         r.groups.add(("load_from_file", binary))
         ok = not per_chunk and (incremental if binary else not incremental)
         r.ob(ok, lambda p=p, eff=eff, per_chunk=per_chunk, incremental=incremental: Finding(
@@ -1343,6 +1361,19 @@ def rule_pu2(ctx: Ctx) -> RuleResult:
         "and coerces timestamps), so the file does not hold the source rows" % ", ".join("%s=%s" % (k.arg, ast.unparse(k.value)) for k in bad)))
     # writer: each record batch written once; closed before completion
     site = ctx.site(PQ, "_dump_parquet._dump.on_subscribe")
+    nopen = 0
+    for p in ctx.fn_paths(site.module, site.subscribe_fn, roles=site.roles, ctxb=site.ctx or None):
+        r.paths += 1
+        for e in p.trace:
+            if e.k == "ucall" and e.d.get("name") == "open_obj":
+                nopen += 1
+                mode = [a[2] for a in e.d.get("args", []) if a[0] == "kw" and a[1] == "mode"] or [a for a in e.d.get("args", [])[1:2] if a[0] != "kw"]
+                ok = bool(mode) and mode[0][0] == "const" and isinstance(mode[0][1], str) and set(mode[0][1]) == set("wb")
+                r.ob(ok, lambda e=e, p=p: Finding("PU-2", "%s::_dump_parquet{mode}" % PQ, e.where(),
+                                                  "the parquet file must be created / truncated for binary writing (mode 'wb'); here %s: an existing file keeps its "
+                                                  "old bytes in front of the new ones" % e.brief(), trace_of(p)))
+    if not nopen:
+        raise AnalysisError("parquet._dump_parquet: the open_obj call of the writer was not found")
     spec = site.handler_specs("on_next")[0]
     for p in ctx.paths(spec, None, {}):
         r.paths += 1
@@ -1415,5 +1446,29 @@ def rule_pu2(ctx: Ctx) -> RuleResult:
             r.ob(ok, lambda: Finding("PU-2", "%s::load_from_file._load_file{completion}" % PQ, ml.where(fl),
                                      "on_completed must follow the last row, exactly once; this path: %s" % summary(p), trace_of(p)))
     r.ob(saw_rows, lambda: Finding("PU-2", "%s::load_from_file._load_file{loops}" % PQ, ml.where(fl), "no batch / row loops found in the loader"))
-    r.require_instances(4)
+    # the function that runs the loader does so for a path and for a file object alike: every path on which nothing raises ends with
+    # on_completed (the loader ran to its end), and a file the operator opens itself is opened for binary reading
+    callers = [f for f in ast.walk(lfn) if isinstance(f, ast.FunctionDef) and f is not fl and any(
+        isinstance(n, ast.Call) and isinstance(n.func, ast.Name) and n.func.id == fl.name for n in ast.walk(f)) and not any(x is fl for x in ast.walk(f))]
+    if len(callers) != 1:
+        raise AnalysisError("parquet.load_from_file: expected one function running %s, found %d" % (fl.name, len(callers)))
+    r.instances += 1
+    r.groups.add(("load_from_file", "arms"))
+    for p in ctx.fn_paths(lm, callers[0], max_iter=1):
+        r.paths += 1
+        if p.outcome == "raise" or any(e.d.get("raised") for e in p.trace):
+            continue
+        ems = emissions(p)
+        ok = bool(ems) and ems[-1].method == "on_completed" and len([x for x in ems if x.method == "on_completed"]) == 1
+        r.ob(ok, lambda p=p: Finding(
+            "PU-2", "%s::load_from_file.%s{arms}" % (PQ, callers[0].name), lm.where(callers[0]),
+            "on a path where nothing fails the loader is not run to its end (no on_completed): %s; decisions: %s" % (
+                summary(p), "; ".join(e.brief() for e in p.trace if e.k == "decision")[:200]), trace_of(p)))
+        for e in p.trace:
+            if e.k == "ucall" and e.d.get("name") == "open_obj":
+                mode = [a[2] for a in e.d.get("args", []) if a[0] == "kw" and a[1] == "mode"] or [a for a in e.d.get("args", [])[1:2] if a[0] != "kw"]
+                ok = bool(mode) and mode[0][0] == "const" and isinstance(mode[0][1], str) and set(mode[0][1]) == set("rb")
+                r.ob(ok, lambda e=e: Finding("PU-2", "%s::load_from_file.%s{mode}" % (PQ, callers[0].name), e.where(),
+                                             "the parquet file must be opened for binary reading (mode 'rb'); here %s" % e.brief(), trace_of(p)))
+    r.require_instances(5)
     return r
